@@ -81,8 +81,10 @@ def run(ctx):
                 cases.append((fn, (k2, table, "4321", span, off, ln, pad)))
     from harness import gens
     cases = fw.with_history(rng, cases, gens.variants_generic(rng), fraction=0.08, limit=40)
-    return fw.call_result(
+    _res = fw.call_result(
         cases, check_impl=check_impl, nontrivial=lambda fn, a, o_: o_[0] == "OK",
         rule="all 22 pad characters x PVK sizes x random tables x offset/PIN lengths 4..16 x PAN lengths 0..19 x windows "
              "(all starts, lengths incl. > 16 and empty, and past the end) + domain edges; oracle = independent IBM 3624; "
              "inverse relation and pad-case equivalence evaluated on the implementation; non-trivial = distinct successful calls")
+    fw.inplace_history(_res, rng, [c for c in cases if core.impl_call(c[0], c[1])[0] == "OK"][:300], check_impl)
+    return _res
